@@ -3,6 +3,7 @@
 package verifharness
 
 import (
+	"bytes"
 	"encoding/json"
 	"fmt"
 	"hash/fnv"
@@ -113,6 +114,7 @@ func writeStats() {
 	if path == "" {
 		return
 	}
+	path = strings.ReplaceAll(path, "%p", fmt.Sprint(os.Getpid()))
 	stats.mu.Lock()
 	defer stats.mu.Unlock()
 	hs := make([]string, 0, len(stats.NonTrivial))
@@ -235,7 +237,22 @@ type Result struct {
 }
 
 func runProp[C any](t *testing.T, prop string, gen func(*rapid.T) *C, check func(*C) Result) {
-	rapid.Check(t, func(rt *rapid.T) {
+	rapid.Check(t, propFunc(prop, gen, check))
+}
+
+// fuzzProp runs the same property under Go's native coverage-guided fuzzer: the fuzzer's bytes
+// drive the rapid generators (rapid.MakeFuzz), so a crasher is again a structured case that is
+// written out as an ordinary replay file.
+func fuzzProp[C any](f *testing.F, prop string, gen func(*rapid.T) *C, check func(*C) Result) {
+	f.Add([]byte{})
+	f.Add([]byte{0x01, 0x02, 0x03, 0x04, 0x05, 0x06, 0x07, 0x08})
+	f.Add([]byte("\xff\xfe\x00\x10 seed bytes for the generator \x7f\x80\x81"))
+	f.Add(bytes.Repeat([]byte{0xa5, 0x5a, 0x3c}, 40))
+	f.Fuzz(rapid.MakeFuzz(propFunc(prop, gen, check)))
+}
+
+func propFunc[C any](prop string, gen func(*rapid.T) *C, check func(*C) Result) func(*rapid.T) {
+	return func(rt *rapid.T) {
 		c := gen(rt)
 		res := check(c)
 		statEval(1)
@@ -251,7 +268,7 @@ func runProp[C any](t *testing.T, prop string, gen func(*rapid.T) *C, check func
 			}
 			statNonTrivial(key, c)
 		}
-	})
+	}
 }
 
 // ---------------------------------------------------------------------------------------
